@@ -36,38 +36,52 @@ def apex_calls(c):
 
 
 def check_entry(run, F, E, fn, seq, plans):
+    """the phases as the sequence of apex dispatches reached from the entry point, looking through helper members of the root classes
+    (so extracting / inlining a helper does not change the verdict)"""
     c = cfgmod.cfg_of(fn)
-    calls, uncond, ordered = apex_calls(c)
-    names = [n.e.get('m') for n in calls]
+    flat = anchors.flatten_apex_calls(F, E, fn)
     want = list(seq) + (['deepUpdatePlans'] if plans else [])
-    ok = names == want and uncond and ordered
-    run.ob('C05.a', 'R_::%s calls %s on the apex once each, unconditionally, in order [%s]' % (fn.m, ', '.join(want), F.cfg or 'none'),
-           ok, where=fn.pat, detail=None if ok else {'got': names, 'unconditional': uncond, 'ordered': ordered},
+    phase_names = set(UPDATE_SEQ + REACT_SEQ + ['deepUpdatePlans'])
+    phases = [x for x in flat if x[0] in phase_names]
+    names = [x[0] for x in phases]
+    uncond = all(x[2] for x in phases)
+    ordered = all(x[4] for x in phases) and not any(x[3] for x in phases)
+    # every other apex dispatch (guards, the transition itself) belongs to request processing and comes after the last phase
+    last_phase = max([flat.index(x) for x in phases]) if phases else -1
+    first_other = min([i for i, x in enumerate(flat) if x[0] not in phase_names] or [len(flat)])
+    ok = names == want and uncond and ordered and last_phase < first_other
+    run.ob('C05.a', 'R_::%s calls %s on the apex once each, unconditionally, in order, before anything else is dispatched [%s]' % (fn.m, ', '.join(want), F.cfg or 'none'),
+           ok, where=fn.pat, detail=None if ok else {'got': [x[0] for x in flat], 'unconditional': uncond, 'ordered': ordered},
            key='R_::%s does not run its phases exactly once in order' % fn.m)
-    # processRequest last
-    pr = c.events(('call',), lambda n: n.e.get('m') == 'processRequest')
-    ok2 = len(pr) == 1 and c.postdominates(pr[0], c.entry) and not c.in_loop(pr[0])
-    if ok2:
-        # every other call event dominates it (it is the last event)
-        for n in c.events(('call', 'ctor', 'write', 'new')):
-            if n is pr[0]:
+    # processRequest last: at every level of the call chain from the entry point down to the call of processRequest, that call is the
+    # last event of its function
+    try:
+        chain = anchors.chain_to(F, E, fn, lambda g: g.m == 'processRequest' and g.tkey in anchors.ROOT_TKEYS)
+    except anchors.AnalysisBroken:
+        chain = None
+    ok2 = bool(chain)
+    for (f2, c2, node) in (chain or []):
+        ok2 = ok2 and c2.postdominates(node, c2.entry) and not c2.in_loop(node)
+        if not ok2:
+            break
+        for n in c2.events(('call', 'ctor', 'write', 'new')):
+            if n is node:
                 continue
-            if not c.dominates(n, pr[0]):
+            if not c2.dominates(n, node):
                 ok2 = False
-        for s, _ in pr[0].succ:
-            x = s
-            # only joins / exit may follow
+        for s2, _ in node.succ:
+            x = s2
             seen = 0
-            while x is not c.exit and seen < 50:
+            while x is not c2.exit and seen < 50:
                 if x.kind not in ('join',):
                     ok2 = False
                     break
-                x = x.succ[0][0] if x.succ else c.exit
+                x = x.succ[0][0] if x.succ else c2.exit
                 seen += 1
     run.ob('C05.a', 'R_::%s processes requests exactly once, as its last action [%s]' % (fn.m, F.cfg or 'none'), ok2, where=fn.pat,
            key='R_::%s does not process requests last' % fn.m)
     # nothing in the phase part reaches transitions machinery
-    for n in calls:
+    for n in [x[1] for x in phases]:
         g = F.fn(n.e['fn']) if n.e.get('fn') is not None else None
         if g is None:
             continue
